@@ -113,3 +113,76 @@ fn c01_metadata_then_radial() {
 fn c01_no_vol_block() {
     scan_one::<false, false, { 28 + 28 + 32 }>();
 }
+
+/// Two radials in one record, both carrying a VOL block with its own (symbolic) VCP number; the
+/// elevation numbers are concrete (E1, E2) because a symbolic split of Vec<Radial> is beyond CBMC
+/// (see C09), azimuth numbers and times are symbolic.  The scan must hold both radials in file
+/// order, grouped into one or two sweeps, and its pattern number must be the FIRST block's.
+fn scan_two<const E1: u8, const E2: u8>() {
+    const L: usize = 28 + 2 * RADIAL_MSG;
+    let mut b = [0u8; L];
+    let hdr: [u8; 24] = kani::any();
+    b[..24].copy_from_slice(&hdr);
+    let az: [u16; 2] = kani::any();
+    let vcp: [u16; 2] = kani::any();
+    let time: [u32; 2] = kani::any();
+    kani::assume(time[0] < 86_400_000 && time[1] < 86_400_000);
+    b[28] = b'B';
+    b[29] = b'Z';
+    let n1 = put_radial(&mut b, 28, az[0], E1, Some(vcp[0]), 19_000, time[0]);
+    let n2 = put_radial(&mut b, 28 + n1, az[1], E2, Some(vcp[1]), 19_000, time[1]);
+    assert!(28 + n1 + n2 == L);
+    let size = (L - 28) as i32;
+    b[24..28].copy_from_slice(&size.to_be_bytes());
+    let f = File::new(b.to_vec());
+    let s = match f.scan() {
+        Ok(s) => s,
+        Err(e) => {
+            core::mem::forget(e);
+            panic!("C01: a well-formed two-radial volume failed to convert")
+        }
+    };
+    assert!(s.coverage_pattern_number() == vcp[0], "C01: coverage pattern number must come from the FIRST volume block");
+    let sw = s.sweeps();
+    let want_sweeps = if E1 == E2 { 1 } else { 2 };
+    assert!(sw.len() == want_sweeps, "C01: wrong number of sweeps (final elevation lost or runs not maximal)");
+    // flatten in order
+    let mut k = 0usize;
+    let mut i = 0;
+    while i < sw.len() {
+        let rs = sw[i].radials();
+        let mut j = 0;
+        while j < rs.len() {
+            assert!(k < 2, "C01: radial duplicated");
+            assert!(rs[j].azimuth_number() == az[k], "C01: radials lost, duplicated or reordered");
+            assert!(rs[j].elevation_number() == if k == 0 { E1 } else { E2 }, "C01: radial altered");
+            assert!(sw[i].elevation_number() == rs[j].elevation_number(), "C01: sweep label");
+            assert!(rs[j].collection_timestamp() == 18_999i64 * 86_400_000 + time[k] as i64, "C01: radial time altered");
+            k += 1;
+            j += 1;
+        }
+        i += 1;
+    }
+    assert!(k == 2, "C01: radial lost");
+    wit!(vcp[0] == 212 && vcp[1] == 35);
+    core::mem::forget(s);
+    core::mem::forget(f);
+}
+
+#[kani::proof]
+#[kani::unwind(8)]
+#[kani::stub(alloc::fmt::format, crate::stubs::fmt_format)]
+#[kani::stub(<[u8; 4] as core::convert::TryFrom<&[u8]>>::try_from, crate::stubs::array_try_from)]
+#[kani::stub(nexrad_data::volume::Record::decompress, decompress_identity)]
+fn c01_two_radials_same_elevation() {
+    scan_two::<1, 1>();
+}
+
+#[kani::proof]
+#[kani::unwind(8)]
+#[kani::stub(alloc::fmt::format, crate::stubs::fmt_format)]
+#[kani::stub(<[u8; 4] as core::convert::TryFrom<&[u8]>>::try_from, crate::stubs::array_try_from)]
+#[kani::stub(nexrad_data::volume::Record::decompress, decompress_identity)]
+fn c01_two_radials_two_elevations() {
+    scan_two::<1, 2>();
+}
